@@ -9,7 +9,35 @@ QUERIES = ["integral", "log_integral", "log_integral_light", "integral_light", "
 
 
 def check_inv(m, fails, reg, site, params):
-    o = m.regs.get(reg)
+    check_inv_obj(fails, m.regs.get(reg), site, params)
+
+
+def check_roundtrips(fails, o, site, params):
+    """whatever travels with an object across a transformation boundary (pytree flatten/unflatten, to_dict/from_dict where
+    the class offers it) is consistent with the object's own parameters: the invariant holds for the rebuilt object and after
+    the first query on it"""
+    import jax
+    if o is None or not hasattr(o, "Lambda"):
+        return
+    rebuilt = []
+    try:
+        leaves, treedef = jax.tree_util.tree_flatten(o)
+        rebuilt.append(("unflatten", jax.tree_util.tree_unflatten(treedef, leaves)))
+    except Exception as e:
+        fails.append(failure(PROPERTY, site + ":unflatten", f"raised: {type(e).__name__}: {str(e)[:160]}", params=params))
+    if hasattr(o, "to_dict") and hasattr(type(o), "from_dict"):
+        try:
+            rebuilt.append(("from_dict", type(o).from_dict(o.to_dict())))
+        except Exception as e:
+            fails.append(failure(PROPERTY, site + ":from_dict", f"raised: {type(e).__name__}: {str(e)[:160]}", params=params))
+    for how, o2 in rebuilt:
+        check_inv_obj(fails, o2, f"{site}:{how}", params)
+        if hasattr(o2, "log_integral") and hasattr(o, "log_integral"):
+            fail_if(fails, PROPERTY, f"{site}:{how}:log_integral", "mass of the rebuilt object differs", np.asarray(o2.log_integral()), np.asarray(o.log_integral()), tol=1e-7, params=params)
+            check_inv_obj(fails, o2, f"{site}:{how}:after-query", params)
+
+
+def check_inv_obj(fails, o, site, params):
     if o is None or not hasattr(o, "Lambda"):
         return
     L = np.asarray(o.Lambda); R, D = L.shape[0], L.shape[1]
@@ -138,6 +166,8 @@ def history(m, seed_label, steps, with_queries, fails, params):
             break
         trace.append((op, kind, uf))
         check_inv(m, fails, nxt, f"history:{op}:{kind}", dict(params, step=s, op=op, kind=kind, uf=uf, trace=[t[0] for t in trace]))
+        if rng.random() < 0.35:
+            check_roundtrips(fails, m.regs.get(nxt), f"history:{op}:{kind}:roundtrip", dict(params, step=s, op=op, kind=kind, uf=uf))
         if nxt != cur:       # the operand of the step keeps consistent caches, too
             check_inv(m, fails, cur, f"history:{op}:{kind}:operand", dict(params, step=s, op=op, kind=kind, uf=uf, trace=[t[0] for t in trace]))
         cur = nxt
@@ -213,6 +243,7 @@ def case_single(kind, uf, cached, R1, R2, D, diag=False):
                 continue
             r = m.multiply(u.reg, f.reg, uf) if op == "multiply" else m.hadamard(u.reg, f.reg, uf)
             check_inv(m, fails, r, f"{op}:{kind}", params)
+            check_roundtrips(fails, m.regs.get(r), f"{op}:{kind}:roundtrip", params)
             # the operands are not modified, and whatever was cached in them meanwhile is consistent with THEIR parameters
             check_inv(m, fails, u.reg, f"{op}:{kind}:left-operand", params)
             if kind == "measure":
